@@ -318,6 +318,8 @@ def collector_first_cases(tier):
             continue
         if quick and "stop" not in str(case[1]):
             continue        # quick: the configurations that leave a never-started remainder
+        if not quick and (P.size(prog[0]) > 4 or not any(w in str(case[1]) for w in ("stop", "tags", "wip"))):
+            continue        # thorough: every configuration that can leave an outline unexpanded, shapes <= 4 positions
         for pr in (prog, (prog[1], prog[0])):
             key = (pr, case[1])
             if key not in seen:
